@@ -15,6 +15,11 @@ CHECKS = {
    note="Trusted: the position conventions read off parser/source_file.go. Execution of compiled code is other properties' subject. Nesting beyond depth 10000 (unbounded recursion of the recursive-descent parser/compiler) is outside the bound.",
    technique="bounded exhaustive enumeration of token sequences, byte strings and 1-edit neighbourhoods x configurations with a totality oracle, in isolated worker processes",
    design="4/C04"),
+ "C05": dict(
+   text="Every case of a hostile family is executed in isolated worker subprocesses (address-space limit, line protocol with the in-flight index, death attribution by re-running the suspect alone in fresh workers, effective-time watchdogs): about 1800 hostile atoms (ill-typed operations, division by zero, negative sizes, mutation of every container kind while iterating it, self-containing arrays/maps/immutables/errors followed by each recursive operation, runaway recursion with 0-3 locals, operand-stack exhaustion, bad spread, non-callables, wrong argument counts for every builtin, nil-returning / error-returning / panicking host functions, contract-breaking host objects, deep acyclic nesting, huge widths, extreme times, overflowing counters) x placements (main, function, closure, module, loop, builtin argument, for-in header), plus all value-level operator/builtin cases of C01 as hostile inputs. Per case on the SAME compiled object: Compile, RunContext, Get, GetAll, IsDefined, Set, RunContext again, Clone, Clone().RunContext - each must return (no hang), no panic may reach the caller, the worker must survive, no goroutine may be left behind.",
+   note="Trusted: the worker protocol and death attribution (a violation needs the crash in every isolated attempt). Unbounded single allocations (bytes(2^31-1), huge range) are outside the claim as the property says. Hang verdicts rest on generous effective-time limits (20 s in a batch + 60 s alone).",
+   technique="bounded exhaustive enumeration of hostile programs x placements with a liveness/no-crash oracle, in isolated worker processes with crash bisection",
+   design="4/C05"),
  "C06": dict(
    text="(a) for every terminating program of the stmt/func/builtin families (65k quick) the run is repeated for EVERY allocation budget N = 0..K and unlimited: there must be a threshold T with the allocation-limit error below it and the unlimited result from it on (monotone, right error identity), and T must equal the number of counter decrements observed through the VM probe in the unlimited run. (b) for six (MaxStringLen, MaxBytesLen) settings every string/bytes-producing operation of the core language (about 130: + on all type pairs, conversions, format verbs/width/precision/*, type_name, slices, literals, host inputs, compound assignment, values built inside functions) with operand lengths placing the result at L-1, L, L+1: no over-long String/Bytes reachable from the globals, limit error exactly when the true length exceeds the limit. (c) non-tail/mutual/closure/method recursion x params x locals x depths around both capacities: value when both capacities suffice, an error otherwise, ErrStackOverflow when frames run out first (slots per frame from engine/bcv), bounded heap growth at depth 1e5.",
    note="Trusted: the probe-based allocation count, the true result length taken from the unlimited run, engine/bcv slot computation. stdlib modules are outside 'core language'.",
